@@ -23,6 +23,9 @@
 (* Its outcome is left open here and judged by the RELATION of the property in the replayer:  *)
 (* "still verifies => content, authenticated attributes, signature value and signer key (with *)
 (* a trust store: the whole signer certificate) are those that were signed".                  *)
+(* Open / OpenPsk / Verify are PURE with respect to the parsed message: the replayer repeats them on one   *)
+(* parsed object (every recipient in turn, the same key twice, a wrong pre-shared key before the right one) *)
+(* and requires what a fresh parse gives.                                                                   *)
 EXTENDS Integers, Sequences, FiniteSets, TLC
 
 VARIABLES sc,        \* the scenario: what Build was asked for (record, see Scenario in MC_C16)
